@@ -28,6 +28,10 @@ type Scenario struct {
 	Deact bool `json:"deact,omitempty"`
 	// PushOnly allows push-only syncs (counted in Y).
 	PushOnly bool `json:"pushonly,omitempty"`
+	// F failed updates at most ("fu": an updater that edits and then returns an
+	// error; the document discards its working copy and re-clones it from the
+	// authoritative root before the next use).
+	F int `json:"f,omitempty"`
 	// InitialPresence attaches with an initial presence value.
 	InitialPresence bool   `json:"initial_presence,omitempty"`
 	Cfg             Config `json:"cfg"`
@@ -41,7 +45,7 @@ func (sc *Scenario) alphabet(c int) []string {
 }
 
 type budget struct {
-	k, y, u, d, e int
+	k, y, u, d, e, f int
 	perClient     []int
 	lateAttached  []bool
 }
@@ -59,6 +63,9 @@ func (sc *Scenario) candidates(b *budget) []Event {
 		}
 		if b.u < sc.U {
 			out = append(out, Event{K: "un", C: c}, Event{K: "re", C: c})
+		}
+		if b.f < sc.F {
+			out = append(out, Event{K: "fu", C: c})
 		}
 		if b.y < sc.Y {
 			out = append(out, Event{K: "s", C: c})
@@ -93,6 +100,8 @@ func (b *budget) add(sc *Scenario, e Event, sign int) {
 		b.y += sign
 	case "un", "re":
 		b.u += sign
+	case "fu":
+		b.f += sign
 	case "dt", "at", "deact":
 		if sc.D > 0 {
 			b.d += sign
